@@ -193,3 +193,185 @@ Print Assumptions C16_login_session.
 Print Assumptions C16_session_invariant.
 Print Assumptions C16_lockstep.
 Print Assumptions C16_pipelined.
+
+
+(* ======================================================================================================
+   Extension: the tie by TRANSLATION (Gen/C16gen.v is regenerated from net/rcon.go by tools/gotrans/c16.go
+   on every run) and the parts of net/rcon.go that were outside the model.
+   Proofs: Proofs/C16_skel.v (interpreter), C16_skel_sem.v, C16_tie.v, C16_ext.v *)
+From GoMC Require Import Base.GoInt Gen.C16gen Model.C16_syntax Model.C16_ext
+  Proofs.C16_skel_expected Proofs.C16_skel Proofs.C16_skel_sem Proofs.C16_tie Proofs.C16_ext.
+
+(* ---- the ten function bodies of net/rcon.go (and the fields of RCONConn), statement by statement, are
+   the ones the model was written from *)
+Theorem C16_skeletons_from_source :
+  rcon_ReadPacket = expected_ReadPacket /\ rcon_WritePacket = expected_WritePacket /\
+  rcon_Cmd = expected_Cmd /\ rcon_Resp = expected_Resp /\ rcon_AcceptLogin = expected_AcceptLogin /\
+  rcon_AcceptCmd = expected_AcceptCmd /\ rcon_RespCmd = expected_RespCmd /\ rcon_DialRCON = expected_DialRCON /\
+  rcon_ListenRCON = expected_ListenRCON /\ rcon_Accept = expected_Accept /\
+  rcon_conn_fields = expected_conn_fields.
+Proof.
+  exact (conj ReadPacket_skel_ok (conj WritePacket_skel_ok (conj Cmd_skel_ok (conj Resp_skel_ok
+        (conj AcceptLogin_skel_ok (conj AcceptCmd_skel_ok (conj RespCmd_skel_ok (conj DialRCON_skel_ok
+        (conj ListenRCON_skel_ok (conj Accept_skel_ok conn_fields_ok)))))))))).
+Qed.
+(* every transport operation in them is followed at once by its error check *)
+Theorem C16_transport_errors_checked :
+  forallb (fun f => guarded (f_body f))
+    [rcon_ReadPacket; rcon_WritePacket; rcon_Cmd; rcon_Resp; rcon_AcceptLogin; rcon_AcceptCmd; rcon_RespCmd;
+     rcon_DialRCON] = true.
+Proof. exact transport_errors_checked. Qed.
+
+(* ---- the model's functions ARE the interpretation of the translated bodies.
+   WritePacket: for every id, type and payload (no size hypothesis) *)
+Theorem C16_WritePacket_translated : forall id ty pl, sem_WritePacket id ty pl = Some (rcon_write id ty pl).
+Proof. exact sem_WritePacket_is_model. Qed.
+(* ReadPacket: on every byte string; the interpretation (which has Go's slice, make and Uint32 panics)
+   never panics *)
+Theorem C16_ReadPacket_translated : forall s, all_bytes s ->
+  run_flat (as_dec (bind sem_ReadPacket (fun r => Ret (frame3 r)))) s = run_flat rcon_read s.
+Proof. exact ReadPacket_translated. Qed.
+Theorem C16_ReadPacket_interpretation_total : forall s, all_bytes s -> ok_or_err (run_flat sem_ReadPacket s).
+Proof. exact ReadPacket_interp_total. Qed.
+(* the callers, interpreted with the interpretations of ReadPacket / WritePacket as callees *)
+Theorem C16_Cmd_translated : forall id c,
+  sem 0 rcon_Cmd [VB c] id = Ret {| r_vals := [VE None]; r_reqid := id; r_out := cmd_send id c |}.
+Proof. exact sem_Cmd_is_model. Qed.
+Theorem C16_RespCmd_translated : forall sid r,
+  sem 0 rcon_RespCmd [VB r] sid = Ret {| r_vals := [VE None]; r_reqid := sid; r_out := resp_cmd sid r |}.
+Proof. exact sem_RespCmd_is_model. Qed.
+Theorem C16_Resp_translated : forall id s, all_bytes s ->
+  run_flat (bind (sem 0 rcon_Resp [] id) (view_resp id)) s = run_flat (resp_recv id) s.
+Proof. exact sem_Resp_is_model. Qed.
+Theorem C16_AcceptLogin_translated : forall pw sid0 s, all_bytes s ->
+  run_flat (bind (sem 0 rcon_AcceptLogin [VB pw] sid0) (view_login sid0)) s = run_flat (accept_login pw) s.
+Proof. exact sem_AcceptLogin_is_model. Qed.
+Theorem C16_AcceptCmd_translated : forall sid0 s, all_bytes s ->
+  run_flat (bind (sem 0 rcon_AcceptCmd [] sid0) (view_acmd sid0)) s = run_flat accept_cmd s.
+Proof. exact sem_AcceptCmd_is_model. Qed.
+Theorem C16_DialRCON_translated : forall id addr pw s, all_bytes s ->
+  erase (run_flat (bind (sem id rcon_DialRCON [VB addr; VB pw] 0) (view_dial id pw)) s) =
+  erase (run_flat (dial_recv id) s).
+Proof. exact sem_DialRCON_is_model. Qed.
+
+(* ---- the integer expressions, translated as in Gen/Funcs.v: the two length checks in source order
+   against the translated constant, the payload's upper slice bound, the length WritePacket declares *)
+Theorem C16_length_checks_translated : forall L,
+  rcon_ReadPacket_cond0 L = (L <? rcon_overhead)%Z /\ rcon_ReadPacket_cond1 L = (rcon_max <? L)%Z /\
+  rcon_ReadPacket_make0 L = L /\
+  ((rcon_overhead <= L <= rcon_max)%Z ->
+   rcon_ReadPacket_bound0 L = (L - 2)%Z /\ Z.to_N (rcon_ReadPacket_bound0 L) - Z.to_N 8 = Z.to_N L - 2 - 8).
+Proof.
+  intros L. split; [apply tie_read_short|]. split; [apply tie_read_large|]. split; [apply tie_read_make|].
+  apply tie_read_payload_end.
+Qed.
+Theorem C16_declared_length_translated : forall id ty pl,
+  takeN 4 (rcon_write id ty pl) = le32 (rcon_WritePacket_item0 (Z.of_N (lenN pl))) /\
+  (fits pl -> rcon_WritePacket_item0 (Z.of_N (lenN pl)) = (Z.of_N (lenN pl) + 10)%Z).
+Proof. intros id ty pl. split; [apply tie_write_len_prefix | apply tie_write_len_fits]. Qed.
+
+(* ---- the writer has no size check: for every payload below 4 GiB the frame it writes is read back
+   iff the payload fits the limit; above it the reader answers "too large", and from 2^31 - 10 bytes on
+   "too short" (the declared length has wrapped to a negative int32) *)
+Theorem C16_write_then_read_any_length : forall id ty pl rest,
+  in_sw 32 id -> in_sw 32 ty -> (Z.of_N (lenN pl) + 10 < 2 ^ 32)%Z ->
+  run_flat rcon_read (rcon_write id ty pl ++ rest) =
+  if (Z.of_N (lenN pl) + 10 <=? net_MaxRCONPackageSize)%Z then FOk (id, ty, pl) rest
+  else if (Z.of_N (lenN pl) + 10 <? 2 ^ 31)%Z then FErr eLarge else FErr eShort.
+Proof. exact write_read_any. Qed.
+Theorem C16_written_frame_accepted_iff : forall id ty pl rest,
+  in_sw 32 id -> in_sw 32 ty -> (Z.of_N (lenN pl) + 10 < 2 ^ 32)%Z ->
+  (is_ok (run_flat rcon_read (rcon_write id ty pl ++ rest)) = true <-> fits pl).
+Proof. exact write_accepted_iff. Qed.
+
+(* ---- responses of any length: one RespCmd per piece of at most MaxRCONPackageSize - 10 bytes, as many
+   Resp calls; the pieces arrive in order and put together are the response.  One RespCmd with a
+   response above the limit is refused by the client *)
+Theorem C16_multi_packet_response : forall id resp rest, in_sw 32 id ->
+  run_flat (recv_n id (List.length (split_resp resp))) (resp_multi id resp ++ rest) = FOk (split_resp resp) rest
+  /\ concat (split_resp resp) = resp /\ Forall fits (split_resp resp) /\ split_resp resp <> [].
+Proof. exact multi_response. Qed.
+Theorem C16_single_long_response_refused : forall id resp rest,
+  ~ fits resp -> (Z.of_N (lenN resp) + 10 < 2 ^ 31)%Z ->
+  run_flat (resp_recv id) (resp_cmd id resp ++ rest) = FErr eLarge.
+Proof. exact single_long_response_refused. Qed.
+
+(* ---- request ids at and across the int32 boundary: an exchange works under ANY int32 id (negative ones
+   included) whatever id the server held before; a client that advances its id for every command stays in
+   step with the server across 2^31 - 1 -> -2^31 *)
+Theorem C16_exchange_any_id : forall id sid0 c r, in_sw 32 id -> fits c -> fits r ->
+  run_session id [ECmd c; EAccept; EResp r; ERecv] {| c2s := []; s2c := []; sid := sid0 |} =
+  ([OSent; OCmd c; OSent; OResp r], {| c2s := []; s2c := []; sid := id |}).
+Proof. exact exchange. Qed.
+Theorem C16_request_id_wraps : forall id sid0 ps, in_sw 32 id ->
+  Forall (fun p => fits (fst p) /\ fits (snd p)) ps ->
+  in_sw 32 (next_id id) /\ next_id 2147483647 = (-2147483648)%Z /\
+  fst (incr_lockstep id ps {| c2s := []; s2c := []; sid := sid0 |}) = lockstep_obs ps.
+Proof.
+  intros id sid0 ps Hi F. split; [apply next_id_range|]. split; [apply next_id_wraps|].
+  apply incr_lockstep_ok; assumption.
+Qed.
+
+(* ---- several connections accepted from one listener: what is observed on connection i is the run of
+   connection i's own events, whatever happens on the others in between; used as the protocol says, every
+   connection is the two message queues of the specification *)
+Theorem C16_connections_isolated : forall i evs ks k, nth_error ks i = Some k -> m_alive k = true ->
+  proj_obs i (run_multi evs ks) = fst (run_session (m_id k) (proj i evs) (m_conn k)).
+Proof. intros i evs ks k. apply run_multi_proj. Qed.
+Theorem C16_connections_sessions : forall evs ks i k,
+  nth_error ks i = Some k -> m_alive k = true -> int31 (m_id k) ->
+  m_conn k = {| c2s := []; s2c := []; sid := m_id k |} -> Forall proto_ev (proj i evs) ->
+  proj_obs i (run_multi evs ks) = fst (spec_session (proj i evs) {| q_cmd := []; q_resp := [] |}).
+Proof. exact multi_sessions. Qed.
+
+(* ---- instances *)
+Example C16_ex_interp_write : sem_WritePacket 1 3 [112; 119] = Some [12;0;0;0; 1;0;0;0; 3;0;0;0; 112;119; 0;0].
+Proof. vm_compute. reflexivity. Qed.
+Example C16_ex_interp_read :
+  run_flat sem_ReadPacket [12;0;0;0; 1;0;0;0; 3;0;0;0; 112;119; 0;0; 7] = FOk (1%Z, 3%Z, [112; 119], None) [7].
+Proof. vm_compute. reflexivity. Qed.
+Example C16_ex_interp_read_short :
+  run_flat sem_ReadPacket [9;0;0;0; 1;0;0;0; 3] = FOk (0%Z, 0%Z, [], Some eShort) [1;0;0;0; 3].
+Proof. vm_compute. reflexivity. Qed.
+Example C16_ex_interp_login_wrong :
+  run_flat (sem 0 rcon_AcceptLogin [VB [120]] 5) [12;0;0;0; 1;0;0;0; 3;0;0;0; 112;119; 0;0] =
+  FOk {| r_vals := [VE (Some ePassword)]; r_reqid := 1; r_out := rcon_write (-1) 2 [] |} [].
+Proof. vm_compute. reflexivity. Qed.
+Example C16_ex_declared_wraps : rcon_WritePacket_item0 (2 ^ 31 - 10) = (- 2 ^ 31)%Z.
+Proof. exact tie_write_len_wraps. Qed.
+Example C16_ex_split : split_resp (fill 10000 7) = [fill 4086 7; fill 4086 7; fill 1828 7]
+  /\ split_resp [] = [[]].
+Proof. split; vm_compute; reflexivity. Qed.
+Example C16_ex_incr :
+  fst (incr_lockstep 2147483647 [([1], [2]); ([3], [4])] accepted) = [OSent; OCmd [1]; OSent; OResp [2]; OSent; OCmd [3]; OSent; OResp [4]]
+  /\ sid (snd (incr_lockstep 2147483647 [([1], [2]); ([3], [4])] accepted)) = (-2147483648)%Z.
+Proof. split; vm_compute; reflexivity. Qed.
+Example C16_ex_multi :
+  run_multi [(0%nat, ECmd [1]); (1%nat, ECmd [9]); (1%nat, EAccept); (0%nat, EAccept); (1%nat, EResp [8]);
+             (0%nat, ERecv); (1%nat, ERecv)]
+    [ {| m_id := 5; m_conn := accepted; m_alive := true |}; {| m_id := 6; m_conn := accepted; m_alive := true |} ] =
+  [(0%nat, OSent); (1%nat, OSent); (1%nat, OCmd [9]); (0%nat, OCmd [1]); (1%nat, OSent); (0%nat, OErr);
+   (1%nat, OResp [8])].
+Proof. vm_compute. reflexivity. Qed.
+
+Print Assumptions C16_skeletons_from_source.
+Print Assumptions C16_transport_errors_checked.
+Print Assumptions C16_WritePacket_translated.
+Print Assumptions C16_ReadPacket_translated.
+Print Assumptions C16_ReadPacket_interpretation_total.
+Print Assumptions C16_Cmd_translated.
+Print Assumptions C16_RespCmd_translated.
+Print Assumptions C16_Resp_translated.
+Print Assumptions C16_AcceptLogin_translated.
+Print Assumptions C16_AcceptCmd_translated.
+Print Assumptions C16_DialRCON_translated.
+Print Assumptions C16_length_checks_translated.
+Print Assumptions C16_declared_length_translated.
+Print Assumptions C16_write_then_read_any_length.
+Print Assumptions C16_written_frame_accepted_iff.
+Print Assumptions C16_multi_packet_response.
+Print Assumptions C16_single_long_response_refused.
+Print Assumptions C16_exchange_any_id.
+Print Assumptions C16_request_id_wraps.
+Print Assumptions C16_connections_isolated.
+Print Assumptions C16_connections_sessions.
